@@ -71,6 +71,34 @@ def int_sequences(maxlen=4, vals=(-2, -1, 0, 1, 2)):
     return out
 
 
+HOSTS = ["Aggregate({X}, 0, lambda a, v: a + v)", "Aggregate(ds, {X}, lambda a, v: a + v)", "Aggregate(ds, 0, lambda a, v: a + {X})",
+         "Aggregate(Select(ds, lambda v: {X}), 0, lambda a, v: a + {X})", "ds.Aggregate({X}, lambda a, v: a + {X})",
+         "f({X})", "f(k={X})", "f(*{X})", "({X}).m()", "obj.Count({X})", "obj.len(k={X})", "z[{X}]", "({X})[0]", "{{'k': {X}}}",
+         "[{X}, {X}]", "-{X}", "{X} if {X} > 1 else {X}", "{X} and c", "lambda e, n={X}: e + n", "[{X} for a in b if {X} > 1]",
+         "f'{{{X}}}'", "(y := {X})", "{X}.attr", "({X})(1)", "First({X})", "Where(ds, lambda v: {X} > v)",
+         "SelectMany(ds, lambda v: Select(v.js, lambda w: {X}))"]
+HOST_XS = ["Count(ds)", "len(Select(ds, lambda v: v + 1))", "Sum(ds)", "Max(Where(ds, lambda v: v > Min(ds)))", "Count(Count(ds))"]
+
+
+def host_cases():
+    return sorted({h.format(X=x) for h in HOSTS for x in HOST_XS})
+
+
+def shared_tree(k):
+    "trees in which ONE shortcut call object is referenced from several places"
+    n = ast.parse("Count(Select(ds, lambda v: Sum(v.xs)))", mode="eval").body
+    m = ast.parse("Max(ds)", mode="eval").body
+    L = ast.Load()
+    return [
+        lambda: ast.BinOp(n, ast.Mult(), n),
+        lambda: ast.Tuple([n, m, n, m], L),
+        lambda: ast.Call(ast.Name("f", L), [n], [ast.keyword("k", n)]),
+        lambda: ast.Call(ast.Name("Sum", L), [ast.Call(ast.Name("Select", L), [ast.Name("ds", L), ast.Lambda(
+            ast.arguments(posonlyargs=[], args=[ast.arg("v")], kwonlyargs=[], kw_defaults=[], defaults=[]), ast.BinOp(m, ast.Add(), m))], [])], []),
+        lambda: ast.IfExp(ast.Compare(n, [ast.Gt()], [m]), n, m),
+    ][k]()
+
+
 class _Reuse(Exception):
     pass
 
@@ -111,7 +139,8 @@ class _NormFolds(ast.NodeTransformer):
     def visit_Call(self, node):
         self.generic_visit(node)
         if isinstance(node.func, ast.Name) and node.func.id == "Aggregate" and len(node.args) == 3 \
-                and isinstance(node.args[2], ast.Lambda) and len(node.args[2].args.args) == 2:
+                and isinstance(node.args[2], ast.Lambda) and len(node.args[2].args.args) == 2 \
+                and not any(isinstance(x, ast.Call) for x in ast.walk(node.args[2])):
             node.args[2] = ast.Name(f"__fold_{classify_fold(node.args[2])}", ast.Load())
             if isinstance(node.args[1], ast.Constant) and not isinstance(node.args[1].value, (str, bytes)) \
                     and node.args[1].value == 0:
@@ -139,9 +168,36 @@ class C19(Check):
         return [
             Space(f"semantic<={n}", {"size": f"<= {n} nodes", "sequences": "all 781 int sequences len<=4 over -2..2"},
                   (lambda n=n: gen_terms(n)), runner="run_sem"),
+            Space("hosts", {"hosts": len(HOSTS), "shortcut expressions": HOST_XS, "note": "a shortcut in every syntactic position "
+                            "incl. inside an explicit Aggregate call (sequence, seed, fold lambda)"}, host_cases, runner="run_host"),
+            Space("shared-nodes", {"trees": 5, "note": "one shortcut call object referenced from several parents"},
+                  (lambda: list(range(5))), runner="run_shared"),
             Space(f"decorated<={n - 1}", {"size": f"<= {n - 1} nodes", "decorations": "0 args, 2 args, keyword, method, bare name"},
                   (lambda n=n: gen_terms(n - 1)), runner="run_dec"),
         ]
+
+    def run_host(self, src):
+        res = {"n": 1, "nt": [src], "oc": [], "tags": {}, "viol": []}
+        self._structural(ast.parse(src, mode="eval").body, src, res)
+        return res
+
+    def run_shared(self, k):
+        from func_adl.ast.aggregate_shortcuts import aggregate_node_transformer
+
+        res = {"n": 1, "nt": [f"shared|{k}"], "oc": ["shared"], "tags": {}, "viol": []}
+        tree = shared_tree(k)
+        text = ast.unparse(tree)
+        want = ast.dump(_NormFolds().visit(_RefLower().visit(ast.parse(text, mode="eval").body)))
+        try:
+            r = aggregate_node_transformer().visit(tree)
+        except Exception as e:
+            res["viol"].append({"kind": f"raised:{type(e).__name__}", "canon": f"shared|{k}", "msg": str(e)[:200]})
+            return res
+        got = ast.dump(_NormFolds().visit(ast.parse(ast.unparse(r), mode="eval").body))
+        if got != want:
+            res["viol"].append({"kind": "shared-shortcut-not-lowered-everywhere", "canon": f"shared|{k}",
+                                "msg": f"{text} -> {ast.unparse(r)[:220]}"})
+        return res
 
     def _lower(self, q):
         from func_adl.ast.aggregate_shortcuts import aggregate_node_transformer
@@ -170,7 +226,7 @@ class C19(Check):
             return None
         if ast.dump(q) != before:
             raise RuntimeError("harness: deepcopy was mutated")
-        ref = _RefLower().visit(copy.deepcopy(q))
+        ref = _NormFolds().visit(_RefLower().visit(copy.deepcopy(q)))  # folds the user wrote are classified alike
         got = _NormFolds().visit(copy.deepcopy(r))
         if ast.dump(got) != ast.dump(ref):
             res["oc"].append("struct-diff")
